@@ -13,7 +13,7 @@ meta={
    "suite_with_change":suite,
    "demonstration_with_change":"FAILS" if re.search(r"FAILED|panicked",rd("demo_with_change.txt")) else "did not fail",
    "demonstration_without_change":"passes" if re.search(r"test result: ok",rd("demo_without_change.txt")) and not re.search("FAILED",rd("demo_without_change.txt")) else "did not pass",
-   "commands":["tools/confirm_seed.sh (suite + demo with/without the change in the scratch worktree, then git -C /repo apply; ./check <id> --tier quick; git -C /repo checkout -- .)"],
+   "commands":["tools/confirm_seed.sh: suite + demo with/without the change in the scratch worktree, then the quick check(s) against the change (either git -C /repo apply; ./check <id> --tier quick; git -C /repo checkout -- .  or, while other runs were using /repo, VERIF_REPO=<worktree> ./check <id> --tier quick, which builds the same harness against the copy)"],
  },
  "caught_by":[c for c in caught.split(",") if c and c!="-"],
  "not_caught_by":[c for c in missed.split(",") if c and c!="-"],
